@@ -68,6 +68,7 @@ def bootstrap():
     # a run aborted by a violation leaves never-started call coroutines behind
     warnings.filterwarnings("ignore", category=RuntimeWarning, message="coroutine .* was never awaited")
     warnings.filterwarnings("ignore", category=ResourceWarning)
+    warnings.filterwarnings("ignore", category=SyntaxWarning)
     import func_adl
 
     got = os.path.dirname(os.path.dirname(os.path.abspath(func_adl.__file__)))
@@ -83,3 +84,55 @@ def env_seed() -> int:
         return int(v)
     except ValueError:
         return DEFAULT_SEED
+
+
+class IsolationError(Exception):
+    pass
+
+
+def isolated(fn, *args, timeout=120):
+    """Run fn(*args) in a forked child and return its (picklable) result.  Every simulated run
+    starts from the same pristine process state: whatever the code under test keeps in module
+    globals (caches, counters, registries) cannot leak from one run, shrink candidate or replay
+    into the next - which is what makes a run a pure function of its case."""
+    import pickle
+    import select
+    import signal
+    import traceback
+
+    r, w = os.pipe()
+    pid = os.fork()
+    if pid == 0:
+        code = 0
+        try:
+            os.close(r)
+            try:
+                data = pickle.dumps(("ok", fn(*args)))
+            except BaseException:
+                data = pickle.dumps(("err", traceback.format_exc()[-3000:]))
+                code = 3
+            with os.fdopen(w, "wb") as f:
+                f.write(data)
+        finally:
+            os._exit(code)
+    os.close(w)
+    chunks = []
+    try:
+        while True:
+            ready, _, _ = select.select([r], [], [], timeout)
+            if not ready:
+                os.kill(pid, signal.SIGKILL)
+                raise IsolationError(f"isolated run exceeded {timeout}s")
+            b = os.read(r, 1 << 20)
+            if not b:
+                break
+            chunks.append(b)
+    finally:
+        os.close(r)
+        os.waitpid(pid, 0)
+    if not chunks:
+        raise IsolationError("isolated run died without a result")
+    kind, val = pickle.loads(b"".join(chunks))
+    if kind == "err":
+        raise IsolationError(val)
+    return val
